@@ -6,6 +6,7 @@ from common import *
 
 # per property: (trace module, cfg, env builder, glob of trace files in .work/<pid>/traces, {op: [fields]})
 PLAN = {
+    'C13': ('TraceKolmogorov', 'TraceKolmogorov.cfg', 'kolm.ndjson', {}, {'q': ['cnt', 'x', 'res'], 'mono': ['dir'], 'one': ['multi']}),
     'C01': ('TraceQuantile', 'TraceQuantile.cfg', 'quant.ndjson', {}, {'q': ['cnt', 'x', 'res'], 'mono': ['dir'], 'one': ['multi']}),
     'C09': ('TraceTree', 'TraceTree.cfg', 'tree_0.ndjson', {'M': 255}, {'push': ['len', 'res'], 'pop': ['ret', 'len'], 'update': ['gv'], 'new': ['len']}),
     'C10': ('TraceTree', 'TraceTree.cfg', 'tree_0.ndjson', {'M': 255}, {'sample': ['i']}),
